@@ -8,6 +8,7 @@ analysis is the one place where the property's first sentence is false by design
 -/
 import Selene.Scope.Lints
 import Selene.Props.C01
+import Selene.Props.C03
 namespace Selene.Props.C02
 open Selene.Scope Selene.Lua
 
@@ -25,6 +26,69 @@ theorem C02_used_iff [Core.NameFilter] (b : Block) (d : Nat) :
     exact ⟨oc, h1, h2, h2', h4⟩
   · rintro ⟨oc, h1, h2, h2', h3⟩
     exact ⟨oc.tok, (C01.C01_resolution_mem b oc.tok (some d)).mpr ⟨oc, h1, h2, h2', rfl, h3⟩⟩
+
+/-- **C02 (value used ⇔ value use recorded).** For every chunk and declaration token `d`: the machine
+records a read of `d` that *uses its value* — any expression position except the root of an indexed
+assignment target (`a` in `a.b = 1`, in `function a.b()`) — iff Lua's scoping rules bind to `d` an
+occurrence of kind `value` (operand, argument, callee, indexed or returned value, condition, loop bound,
+captured by a closure). -/
+theorem C02_value_used_iff [Core.NameFilter] (b : Block) (d : Nat) :
+    (∃ t, (t, some d) ∈ (Core.analyse b).valueUses) ↔
+      ∃ oc ∈ (Spec.resolve b).occs, SpecProof.counted oc = true ∧ Core.NameFilter.read oc.name = true ∧
+        oc.kind = .value ∧ oc.binding.map (·.1) = some d := by
+  have hp : (Core.analyse b).valueUses.Perm (SpecProof.valueUses (Spec.resolve b)) := by
+    rw [← CoreProof.log_valueUses, ← SpecProof.log_valueUses]
+    exact (C01.C01_log b).filterMap _
+  constructor
+  · rintro ⟨t, h⟩
+    have := hp.mem_iff.mp h
+    simp only [SpecProof.valueUses, List.mem_map, List.mem_filter, Prod.mk.injEq, Bool.and_eq_true, beq_iff_eq] at this
+    obtain ⟨oc, ⟨h1, ⟨h2, h3⟩, h4⟩, _, h6⟩ := this
+    exact ⟨oc, h1, h2, h3, h4, h6⟩
+  · rintro ⟨oc, h1, h2, h3, h4, h5⟩
+    refine ⟨oc.tok, hp.mem_iff.mpr ?_⟩
+    simp only [SpecProof.valueUses, List.mem_map, List.mem_filter, Prod.mk.injEq, Bool.and_eq_true, beq_iff_eq]
+    exact ⟨oc, ⟨h1, ⟨h2, h3⟩, h4⟩, rfl, h5⟩
+
+/-- the declarations `unused_variable` is about, over the machine's log: those none of whose recorded
+reads uses the value -/
+def neverUsed [Core.NameFilter] (σ : Core.St) : List Nat :=
+  (σ.shadows.map (·.1)).filter fun t => !(σ.valueUses.any fun u => u.2 == some t)
+
+/-- **C02 (both directions, for the machine).** For every chunk: a declaration is in `neverUsed` — the
+only declarations the lint may report, and all of which it reports unless a further condition of the lint
+(ignore pattern, implicit `self`, the documented write-only analysis) says otherwise — iff it is a
+local, parameter, loop variable, local function or implicit `self` of the file to which Lua's scoping
+rules bind no occurrence that uses its value.  In particular a variable some expression uses is never in
+it, and a variable never mentioned again after its declaration always is. -/
+theorem C02_neverUsed_iff (b : Block) (t : Nat) :
+    t ∈ @neverUsed Core.NameFilter.all (Core.analyse b) ↔
+      (∃ dc ∈ (Spec.resolve b).decls, dc.kind ≠ .varargParam ∧ dc.tok = t) ∧
+      ¬ ∃ oc ∈ (Spec.resolve b).occs, SpecProof.counted oc = true ∧ oc.kind = .value ∧ oc.binding.map (·.1) = some t := by
+  letI := Core.NameFilter.all
+  unfold neverUsed
+  simp only [List.mem_filter, List.mem_map, Bool.not_eq_true', List.any_eq_false, beq_iff_eq, Prod.exists, exists_and_right,
+    exists_eq_right]
+  constructor
+  · rintro ⟨⟨s, hmem⟩, hno⟩
+    refine ⟨?_, ?_⟩
+    · have := (C03.C03_shadows b).mem_iff.mp hmem
+      simp only [SpecProof.shadows, List.mem_map, List.mem_filter, Prod.mk.injEq, Bool.and_eq_true, bne_iff_ne] at this
+      obtain ⟨dc, ⟨h1, h2, _⟩, h3, _⟩ := this
+      exact ⟨dc, h1, h2, h3⟩
+    · rintro ⟨oc, h1, h2, h3, h4⟩
+      obtain ⟨u, hu⟩ := (C02_value_used_iff b t).mpr ⟨oc, h1, h2, rfl, h3, h4⟩
+      exact hno (u, some t) hu rfl
+  · rintro ⟨⟨dc, h1, h2, h3⟩, hno⟩
+    refine ⟨⟨dc.visibleSameName.map (·.1), ?_⟩, ?_⟩
+    · apply (C03.C03_shadows b).mem_iff.mpr
+      simp only [SpecProof.shadows, List.mem_map, List.mem_filter, Prod.mk.injEq, Bool.and_eq_true, bne_iff_ne]
+      exact ⟨dc, ⟨h1, h2, rfl⟩, h3, rfl⟩
+    · rintro ⟨u, bnd⟩ hu hb
+      simp only at hb
+      subst hb
+      obtain ⟨oc, h1, h2, _, h4, h5⟩ := (C02_value_used_iff b t).mp ⟨u, hu⟩
+      exact hno ⟨oc, h1, h2, h4, h5⟩
 
 def analyzedOf (σ : St) (argObserves : List String → Nat → Option Bool) (v : Variable) : List Analyzed :=
   v.references.filterMap fun id => (σ.refs[id]?).map (analyzeRef σ argObserves v)
